@@ -247,7 +247,10 @@ def run_case(ctx, mon, cfg_id, terms, prods, inputs_spec=None, rng=None, any_spe
     if not parsers:
         return
     if cfg.kwargs.get('span_matchers'):
-        llmon.build_decoy(cfg)
+        try:
+            llmon.build_decoy(cfg)
+        except Exception:
+            ctx.count("decoy_parser_rejected(judged by C02)")
         ctx.count("parsers_with_other_multi_line_tokens_built_in_between")
     ctx.count("grammars")
     if any(p._suffix_symbols for p in parsers.values()):
